@@ -1,5 +1,6 @@
 """C06 -- a kill at any instant leaves an atomic, loadable checkpoint."""
 from ..pathrules import rule_T2
+from ..persist import rule_P4_sampler
 
 LEVEL_TEXT = ('Static typestate analysis of every function of the package that touches the file '
               'system for writing: decides that the caller-visible checkpoint path changes only '
@@ -13,6 +14,10 @@ def run(ctx):
     ctx.require(n >= 2, 'only %d checkpoint writers found (floor 2: Sampler.write, '
                 'Sampler.write_shell_update)' % n)
     ctx.floor('T2', 3, 'typestate obligations')
+    # never a mixture of two states: an in-place update is only ever applied to a file that
+    # this run wrote completely (first batch, layout changes => full write) and refreshes
+    # everything that changed since
+    rule_P4_sampler(ctx)
     ctx.assumptions += [
         'POSIX rename/replace within one file system is atomic',
         'crash = process kill (page cache survives): no fsync obligation',
